@@ -4,6 +4,7 @@
 package engine
 
 import (
+	"encoding/json"
 	"fmt"
 	"hash/fnv"
 	"os"
@@ -118,12 +119,42 @@ func hash64(s string) uint64 {
 // that does not stop the exploration of the subtree below it.
 var Tolerate func(kind, opKind string) bool
 
+// TraceFile, if set (env VERIF_TRACE_HIST), receives the history about to be executed (overwritten
+// each time), so that a process killed by a Go fatal error (e.g. a wild memmove inside the library on a
+// corrupted table) can be attributed to the history that was running.
+var TraceFile *os.File
+
+func init() {
+	if p := os.Getenv("VERIF_TRACE_HIST"); p != "" {
+		TraceFile, _ = os.OpenFile(p, os.O_CREATE|os.O_WRONLY|os.O_TRUNC, 0o644)
+	}
+}
+
+// TraceRecord is what TraceFile holds.
+type TraceRecord struct {
+	Scenario string
+	Cfg      drv.Config
+	Hist     []model.Op
+}
+
+func traceHistory(name string, cfg drv.Config, prelude, hist []model.Op) {
+	if TraceFile == nil {
+		return
+	}
+	all := append(append([]model.Op{}, prelude...), hist...)
+	b, _ := json.Marshal(TraceRecord{Scenario: name, Cfg: cfg, Hist: all})
+	b = append(b, '\n')
+	TraceFile.WriteAt(b, 0)
+	TraceFile.Truncate(int64(len(b)))
+}
+
 // StepHook, if set, is installed as the world's OnStep callback (single-threaded sub modes only).
 var StepHook func(step int)
 
 // RunHistory executes prelude+hist on a fresh world. Oracles are evaluated after the last
 // op only (every proper prefix is itself a node of the search and was checked there).
 func RunHistory(sc *Scenario, cfg drv.Config, prelude, hist []model.Op) (*drv.World, *drv.Violation) {
+	traceHistory(sc.Name, cfg, prelude, hist)
 	x := drv.NewWorld(cfg, sc.Filters, sc.Obs, sc.Slots, sc.Oracle)
 	if StepHook != nil {
 		x.OnStep = StepHook
